@@ -405,6 +405,7 @@ class PathAnalysis(flow.Analysis):
         the environment, literals and events that mention a variable assigned in the loop body is sound for
         must-literal rules (facts are only lost) and keeps the number of loop-head states independent of how many
         definition sites the body has."""
+        self.__dict__.setdefault("back_states", []).append((loop, state))
         if not self.forget_at_loop_back:
             return state
         key = id(loop)
@@ -576,7 +577,12 @@ class PathAnalysis(flow.Analysis):
                 for attr in ("cancelled_caught", "cancel_called"):
                     lit = f"{t}.{attr}"
                     state = replace(state, lits=frozenset(l for l in state.lits if l not in (lit, "not " + lit)))
-                    state = state.add_lit(lit if fired else "not " + lit)
+                    if fired:
+                        state = state.add_lit(lit)
+                    elif attr == "cancelled_caught":
+                        state = state.add_lit("not " + lit)
+                    # a body that ran to its end says nothing about `cancel_called`: the deadline may have fired in the
+                    # very loop iteration in which the awaited operation had already completed
         return state
 
     def leave_handler(self, state, handler):
